@@ -53,6 +53,7 @@ def parseAct (s : String) : Option (Option Act) :=
   | ["qb", c] => c.toNat?.map (fun c => some (.queueBatched c))
   | ["qd", c] => c.toNat?.map (fun c => some (.queueDirect c))
   | ["qu", c] => c.toNat?.map (fun c => some (.queueUnsendable c))
+  | ["qc", c] => c.toNat?.map (fun c => some (.queueDirectClosing c))
   | ["cx", c] => c.toNat?.map (fun c => some (.cancel c))
   | ["w", w, l, r] => do
     let w ← parseWho w; let r ← parseIO r
@@ -121,6 +122,7 @@ def monitors (model : String) (steps : List (String × Obs)) (cancelled : List N
     | ["qb", c] => c.toNat?
     | ["qd", c] => c.toNat?
     | ["qu", c] => c.toNat?
+    | ["qc", c] => c.toNat?
     | _ => none)
   match steps.getLast? with
   | none => none
@@ -139,7 +141,7 @@ def monitors (model : String) (steps : List (String × Obs)) (cancelled : List N
               | (a, o) :: rest =>
                 let bad := match prev, a.splitOn ":" with
                   | some p, [k, c] =>
-                    if (k = "qb" || k = "qd" || k = "qu") && p.done then
+                    if (k = "qb" || k = "qd" || k = "qu" || k = "qc") && p.done then
                       match c.toNat? with
                       | some c => !cancelled.contains c && countOf o c = 0
                       | none => false
